@@ -7,6 +7,7 @@ import (
 	"log/slog"
 	"net/netip"
 	"strings"
+	"sync"
 
 	"github.com/rcrowley/go-metrics"
 	"github.com/slackhq/nebula/iputil"
@@ -15,7 +16,11 @@ import (
 )
 
 type disabledTun struct {
-	read        chan []byte
+	read chan []byte
+	// done is closed exactly once by Close. read is never closed or cleared, so a reader that arrives after Close and a
+	// Write answering an echo request while Close runs both see a consistent device.
+	done        chan struct{}
+	closeOnce   sync.Once
 	vpnNetworks []netip.Prefix
 
 	// Track these metrics since we don't have the tun device to do it for us
@@ -28,9 +33,11 @@ type disabledTun struct {
 // from concurrent queues are safe: the channel receive serializes them and
 // each queue copies into its own private scratch buffer.
 func (t *disabledTun) Read(b []byte) (int, error) {
-	r, ok := <-t.read
-	if !ok {
+	var r []byte
+	select {
+	case <-t.done:
 		return 0, io.EOF
+	case r = <-t.read:
 	}
 
 	t.tx.Inc(1)
@@ -45,6 +52,7 @@ func newDisabledTun(vpnNetworks []netip.Prefix, queueLen int, metricsEnabled boo
 	tun := &disabledTun{
 		vpnNetworks: vpnNetworks,
 		read:        make(chan []byte, queueLen),
+		done:        make(chan struct{}),
 		l:           l,
 	}
 
@@ -84,6 +92,7 @@ func (t *disabledTun) handleICMPEchoRequest(b []byte) bool {
 
 	// attempt to write it, but don't block
 	select {
+	case <-t.done:
 	case t.read <- out:
 	default:
 		t.l.Debug("tun_disabled: dropped ICMP Echo Reply response")
@@ -117,10 +126,7 @@ func (t *disabledTun) Queues(n int) ([]tio.Queue, error) {
 }
 
 func (t *disabledTun) Close() error {
-	if t.read != nil {
-		close(t.read)
-		t.read = nil
-	}
+	t.closeOnce.Do(func() { close(t.done) })
 	return nil
 }
 
